@@ -922,7 +922,7 @@ pub fn execute(d: &ConcDesc, keep_trace: bool) -> RunResult {
                 let mut heap = Heap::default();
                 heap.new_list(vec![]);
                 let ev = hist.lock().unwrap().clone();
-                let lr = crate::model::linearizable(&heap, &ev, 2_000_000);
+                let lr = crate::model::linearizable(&heap, &ev, 600_000);
                 if !lr.gave_up && !lr.ok {
                     let mut s = String::new();
                     for e in &ev {
